@@ -104,6 +104,15 @@ func surveyEnumerate(path string) (int, func(k int) ([]byte, surveyPoint, bool))
 					}
 				case *ast.BlockStmt:
 					for i, st := range x.List {
+						if as, isAs := st.(*ast.AssignStmt); isAs && as.Tok == token.ASSIGN {
+							if hit() {
+								pt = surveyPoint{Line: fset.Position(as.Pos()).Line, Func: fname, Op: "delete-assign", Text: nodeText(fset, as)}
+								x.List = append(append([]ast.Stmt{}, x.List[:i]...), x.List[i+1:]...)
+								done = true
+								return false
+							}
+							continue
+						}
 						es, ok := st.(*ast.ExprStmt)
 						if !ok {
 							continue
